@@ -52,6 +52,9 @@ INPUT_SIGS = {
                 res == insens_prefix(string.spec_bytes(), rest(old(self).ctx(), old(self).off())),
                 res ==> final(self).off() == old(self).off() + string.spec_bytes().len(),
                 !res ==> final(self).off() == old(self).off(),'''),
+    'chars': ("fn chars(&self) -> (r: Chars<'i>)", '''
+        requires input_inv(self.ctx(), self.off()),
+        ensures IteratorSpec::remaining(&r) == decode_utf8(rest(self.ctx(), self.off())), IteratorSpec::obeys_prophetic_iter_laws(&r),'''),
     'match_range': ("fn match_range(&mut self, range: Range<char>) -> (res: bool)", '''
         requires input_inv(old(self).ctx(), old(self).off()),
         ensures final(self).ctx() == old(self).ctx(), input_inv(final(self).ctx(), final(self).off()),
@@ -241,23 +244,12 @@ pub open spec fn insens_prefix(s: Seq<u8>, r: Seq<u8>) -> bool {
 pub open spec fn skip_until_stop(c: Ctx, needles: Seq<&str>, pos: nat, k: nat) -> bool {
     pos <= k && k <= c.end && (k == c.end || needle_at(c, needles, k)) && forall|j: nat| pos <= j < k ==> !needle_at(c, needles, j)
 }
-// first scalar value of a byte string: the char whose UTF-8 encoding is a prefix of it (unique: UTF-8 is prefix-free)
-pub open spec fn starts_with_char(b: Seq<u8>, c: char) -> bool { is_prefix(encode_scalar(c as u32), b) }
-pub open spec fn first_char(b: Seq<u8>) -> Option<char> {
-    if exists|c: char| starts_with_char(b, c) { Some(choose|c: char| starts_with_char(b, c)) } else { None }
-}
+// the remaining input as scalar values (vstd::utf8::decode_utf8; defined for valid UTF-8)
+pub open spec fn first_char(b: Seq<u8>) -> Option<char> { if decode_utf8(b).len() > 0 { Some(decode_utf8(b)[0]) } else { None } }
 pub open spec fn char_len(c: char) -> nat { encode_scalar(c as u32).len() }
 // byte length of the first n scalar values of b, None if b has fewer than n
-pub open spec fn skip_chars(b: Seq<u8>, n: nat) -> Option<nat>
-    decreases n
-{
-    if n == 0 { Some(0) } else {
-        match first_char(b) {
-            None => None,
-            Some(c) => if char_len(c) > b.len() { None } else {
-                match skip_chars(b.subrange(char_len(c) as int, b.len() as int), (n - 1) as nat) { None => None, Some(k) => Some(char_len(c) + k) } },
-        }
-    }
+pub open spec fn skip_chars(b: Seq<u8>, n: nat) -> Option<nat> {
+    if n <= decode_utf8(b).len() { Some(encode_utf8(decode_utf8(b).subrange(0, n as int)).len()) } else { None }
 }
 pub open spec fn needle_at(c: Ctx, needles: Seq<&str>, k: nat) -> bool {
     k <= c.end && is_char_boundary(bytes_of(c), k as int)
